@@ -26,6 +26,10 @@ SPEC = {
     'Heading': r' {0,3}#{1,6}(?:[ \t][^\n]*)?\n',
     'SetextUnderline': r' {0,3}(?:=+|-+)[ \t]*\n',
     'CodeFence': r' {0,3}(?:`{3,}[^`\n]*|~{3,}[^\n]*)\n',
+    # GFM 4.10 (tables extension): "The delimiter row consists of cells whose only content are hyphens (-), and
+    # optionally, a leading or trailing colon (:), or both"; cells separated by pipes, leading and trailing pipe
+    # optional, spaces or tabs around cells
+    'TableDelimiterRow': r'[ \t]*\|?[ \t]*:?-+:?[ \t]*(?:\|[ \t]*:?-+:?[ \t]*)*\|?[ \t]*\n',
     'ListMarker': r' {0,3}(?:[-+*]|[0-9]{1,9}[.)])(?:[ \t][^\n]*)?\n',
 }
 
